@@ -486,6 +486,7 @@ func init() {
 		"runtime/debug.Stack": func(fr *frame, a []value) value { return []value(nil) },
 		"math.Ceil":           func(fr *frame, a []value) value { return fr.w.tb.FCeil(a[0].(T)) },
 		"reflect.TypeOf":      func(fr *frame, a []value) value { return iface{} },
+		"reflect.TypeFor":     func(fr *frame, a []value) value { return iface{} },
 		"reflect.DeepEqual": func(fr *frame, a []value) value {
 			return fr.w.deepEq(a[0], a[1], 0)
 		},
